@@ -35,3 +35,44 @@ package meta
 //@   props C13 C07
 //@   requires e != nil && e.statePool != nil
 //@   modifies e.localState, family H:nfa.BacktrackerState.InputLen, family H:nfa.BacktrackerState.Longest, family E:int
+
+// ---- reference semantics of a compiled pattern (uninterpreted: no regex semantics is smuggled in) ----
+// refFound/refStart/refEnd(e, longest, h, at): the match stdlib regexp reports for e's pattern in the given
+// mode when the search of the full haystack h is resumed at offset at.
+
+//@ uninterpreted spec func refFound(e *Engine, longest bool, h []byte, at int) bool
+//@ uninterpreted spec func refStart(e *Engine, longest bool, h []byte, at int) int
+//@ uninterpreted spec func refEnd(e *Engine, longest bool, h []byte, at int) int
+
+//@ axiom refRange: forall e *Engine, l bool, h []byte, at int :: refFound(e, l, h, at) ==> at <= refStart(e, l, h, at) && refStart(e, l, h, at) <= refEnd(e, l, h, at) && refEnd(e, l, h, at) <= len(h)
+//@ axiom refResume: forall e *Engine, l bool, h []byte, at int, at2 int :: (refFound(e, l, h, at) && at <= at2 && at2 <= refStart(e, l, h, at)) ==> (refFound(e, l, h, at2) && refStart(e, l, h, at2) == refStart(e, l, h, at) && refEnd(e, l, h, at2) == refEnd(e, l, h, at))
+//@ axiom refResumeNone: forall e *Engine, l bool, h []byte, at int, at2 int :: (!refFound(e, l, h, at) && at <= at2) ==> !refFound(e, l, h, at2)
+
+// stdlib's allMatches loop as a recursive count: budget < 0 means unlimited
+//@ opaque spec func cnt(e *Engine, l bool, h []byte, pos int, prev int, budget int) int = ite(budget == 0 || pos > len(h) || !refFound(e, l, h, pos), 0, ite(refEnd(e, l, h, pos) == pos, ite(refStart(e, l, h, pos) == prev, cnt(e, l, h, ite(runeW(h, pos) > 0, pos + runeW(h, pos), len(h) + 1), pos, budget), 1 + cnt(e, l, h, ite(runeW(h, pos) > 0, pos + runeW(h, pos), len(h) + 1), pos, ite(budget > 0, budget - 1, budget))), 1 + cnt(e, l, h, refEnd(e, l, h, pos), refEnd(e, l, h, pos), ite(budget > 0, budget - 1, budget))))
+
+// engine invariant (establishment by CompileRegexp is ASSUMED, DESIGN 6.0): the forward/reverse DFA pair computes
+// the leftmost-first reference
+//@ spec func dfaLink(e *Engine) bool = (e.dfa != nil ==> (forall h []byte, at int :: dfaFwdEnd(e.dfa, h, at) == ite(refFound(e, false, h, at), refEnd(e, false, h, at), -1))) && ((e.dfa != nil && e.reverseDFA != nil) ==> (forall h []byte, lo int :: refFound(e, false, h, lo) ==> dfaRevStart(e.reverseDFA, h, lo, refEnd(e, false, h, lo)) == refStart(e, false, h, lo)))
+//@ spec func engineOK(e *Engine) bool = e != nil && e.statePool != nil && e.nfa != nil && dfaLink(e)
+
+// dispatcher: contract ASSUMED here (the dispatch layer is verified separately, DESIGN 6/C02)
+//@ trusted func (*Engine).findIndicesAtWithState
+//@   requires engineOK(e) && state != nil && 0 <= at && at <= len(haystack)
+//@   modifies family H:nfa, family H:dfa/lazy, family E:uint16, family E:int, family E:dfa/lazy, family E:uint32, family E:*dfa/lazy, family H:internal/sparse, family H:dfa/onepass, family H:meta.Stats
+//@   ensures found == refFound(e, e.longest, haystack, at)
+//@   ensures found ==> start == refStart(e, e.longest, haystack, at) && end == refEnd(e, e.longest, haystack, at)
+//@   ensures !found ==> start == -1 && end == -1
+
+//@ func advancePastEmpty
+//@   props C04 C08 C07
+//@   requires 0 <= pos && pos <= len(haystack) + 1 && len(haystack) <= 140737488355328
+//@   ensures result == ite(pos >= len(haystack), pos + 1, pos + runeW(haystack, pos)) && result > pos && result <= len(haystack) + 2
+
+//@ func (*Engine).Count
+//@   props C04 C11 C07 C05
+//@   requires engineOK(e) && len(haystack) <= 140737488355328
+//@   ensures result == cnt(e, e.longest, haystack, 0, -1, n)
+//@   loop 1: invariant 0 <= pos && pos <= len(haystack) + 1 && 0 <= count && count <= pos && (n <= 0 || count < n) && n != 0 && state != nil && lastNonEmptyEnd <= pos
+//@   loop 1: invariant count + cnt(e, e.longest, haystack, pos, lastNonEmptyEnd, ite(n < 0, n, n - count)) == cnt(e, e.longest, haystack, 0, -1, n)
+//@   loop 1: decreases len(haystack) + 1 - pos
